@@ -7,6 +7,7 @@
 #include <queue>
 #include <stack>
 #include <stdexcept>
+#include <string>
 #include <vector>
 
 #include "BaseGraph/types.h"
@@ -22,6 +23,17 @@ typedef std::pair<std::vector<size_t>, std::vector<std::list<VertexIndex>>>
     MultiplePredecessors;
 typedef std::list<VertexIndex> Path;
 typedef std::list<std::list<VertexIndex>> MultiplePaths;
+
+/// Throws `std::out_of_range` if \p vertex is not a vertex of \p graph.
+template <typename Graph>
+void assertVertexInGraph(const Graph &graph, VertexIndex vertex) {
+    if (vertex >= graph.getSize())
+        throw std::out_of_range(
+            "Vertex index (" + std::to_string(vertex) +
+            ") greater than the graph's size(" +
+            std::to_string(graph.getSize()) + ")."
+        );
+}
 
 inline VertexIndex findSourceVertex(std::vector<size_t> geodesicLengths) {
     bool sourceFound = false;
@@ -45,6 +57,8 @@ template <template <class...> class Graph, typename EdgeLabel>
 Path findPathToVertexFromPredecessors(
     const Graph<EdgeLabel> &graph, VertexIndex source, VertexIndex destination,
     const Predecessors &distancesPredecessors) {
+    assertVertexInGraph(graph, source);
+    assertVertexInGraph(graph, destination);
     if (source == destination)
         return {source};
 
@@ -77,6 +91,8 @@ template <template <class...> class Graph, typename EdgeLabel>
 MultiplePaths findMultiplePathsToVertexFromPredecessors(
     const Graph<EdgeLabel> &graph, VertexIndex source, VertexIndex destination,
     const MultiplePredecessors &distancesPredecessors) {
+    assertVertexInGraph(graph, source);
+    assertVertexInGraph(graph, destination);
     if (source == destination)
         return {{source}};
 
@@ -131,6 +147,7 @@ MultiplePaths findMultiplePathsToVertexFromPredecessors(
 template <template <class...> class Graph, typename EdgeLabel>
 Predecessors findVertexPredecessors(const Graph<EdgeLabel> &graph,
                                       VertexIndex vertex) {
+    assertVertexInGraph(graph, vertex);
     VertexIndex currentVertex = vertex;
     size_t verticesNumber = graph.getSize();
 
@@ -162,6 +179,8 @@ Predecessors findVertexPredecessors(const Graph<EdgeLabel> &graph,
 template <template <class...> class Graph, typename EdgeLabel>
 Path findGeodesics(const Graph<EdgeLabel> &graph, VertexIndex source,
                    VertexIndex destination) {
+    assertVertexInGraph(graph, source);
+    assertVertexInGraph(graph, destination);
     if (source == destination)
         return {source};
 
@@ -177,6 +196,7 @@ Path findGeodesics(const Graph<EdgeLabel> &graph, VertexIndex source,
 template <template <class...> class Graph, typename EdgeLabel>
 MultiplePredecessors findAllVertexPredecessors(const Graph<EdgeLabel> &graph,
                                                  VertexIndex vertex) {
+    assertVertexInGraph(graph, vertex);
     VertexIndex currentVertex = vertex;
     size_t verticesNumber = graph.getSize();
 
@@ -219,6 +239,8 @@ MultiplePredecessors findAllVertexPredecessors(const Graph<EdgeLabel> &graph,
 template <template <class...> class Graph, typename EdgeLabel>
 MultiplePaths findAllGeodesics(const Graph<EdgeLabel> &graph,
                                VertexIndex source, VertexIndex destination) {
+    assertVertexInGraph(graph, source);
+    assertVertexInGraph(graph, destination);
     if (source == destination)
         return {{source}};
 
@@ -266,6 +288,7 @@ findAllGeodesicsFromVertex(const Graph<EdgeLabel> &graph, VertexIndex vertex) {
 template <typename Graph>
 std::pair<std::vector<EdgeWeight>, std::vector<VertexIndex>>
 findGeodesicsDijkstra(const Graph &graph, VertexIndex source) {
+    assertVertexInGraph(graph, source);
     std::vector<EdgeWeight> distances(graph.getSize(), BASEGRAPH_INFINITY);
     distances[source] = 0;
     std::vector<VertexIndex> predecessors(graph.getSize(),
